@@ -18,6 +18,8 @@ import (
 	"encoding/json"
 	"flag"
 	"fmt"
+	"github.com/idena-network/idena-go/crypto/ecies"
+	"github.com/idena-network/idena-go/crypto/vrf/p256"
 	"math/big"
 	"math/rand"
 	"os"
@@ -361,6 +363,47 @@ func (h *hist) genTxs() []*txRec {
 		res = append(res, r)
 		if counts {
 			pend[r.from]++
+		}
+	}
+	if per := s.ValidationPeriod(); h.cfg.epochs && (per == state.FlipLotteryPeriod || per != state.NonePeriod && h.rnd.Intn(2) == 0 || per == state.NonePeriod && h.rnd.Intn(25) == 0) {
+		// ceremony transactions, submitted in time, a period EARLY (the pools take them and make them wait; the builder
+		// must leave them out until their period) and late; what they say does not matter here (the epoch results are
+		// injected), when they may enter a block does.  From the second epoch on long answers carry a real VRF proof.
+		var cands []int
+		for k := 0; k < 15; k++ {
+			if state.IsCeremonyCandidate(s.GetIdentity(h.w.Addrs[k])) {
+				cands = append(cands, k)
+			}
+		}
+		for i, cnt := 0, 1+h.rnd.Intn(3); i < cnt; i++ {
+			k := h.rnd.Intn(15)
+			if len(cands) > 0 && h.rnd.Intn(4) != 0 {
+				k = h.pick(cands)
+			}
+			typ := []types.TxType{types.SubmitAnswersHashTx, types.SubmitShortAnswersTx, types.SubmitLongAnswersTx, types.EvidenceTx}[h.rnd.Intn(4)]
+			if per == state.FlipLotteryPeriod && i == 0 {
+				typ = types.SubmitLongAnswersTx // the type the pools accept a whole period before a block may carry it
+			}
+			var payload []byte
+			switch typ {
+			case types.SubmitAnswersHashTx:
+				hsh := common.Hash{byte(k), byte(h.blockNo), 7}
+				payload = hsh[:]
+			case types.SubmitShortAnswersTx:
+				payload = attachments.CreateShortAnswerAttachment([]byte{1, 2, byte(k)}, uint64(100+k), 0)
+			case types.SubmitLongAnswersTx:
+				seed := s.FlipWordsSeed()
+				var proof []byte
+				if signer, err := p256.NewVRFSigner(h.w.Keys[k]); err == nil {
+					_, proof = signer.Evaluate(seed[:])
+				}
+				payload = attachments.CreateLongAnswerAttachment([]byte{3, byte(k)}, proof, []byte{byte(k), 9, 9}, ecies.ImportECDSA(h.w.Keys[k]))
+			case types.EvidenceTx:
+				payload = []byte{byte(k), 9}
+			}
+			r := h.mkTx(k, typ, nil, nil, payload, 0, 0, pend)
+			r.m["ceremony"] = true
+			add(r, per >= state.ShortSessionPeriod)
 		}
 	}
 	if !h.cfg.heavy && h.floods < 3 && h.rnd.Intn(30) == 0 && s.GetBalance(h.w.Addrs[0]).Cmp(sim.Dna(40000, 1)) > 0 {
@@ -747,7 +790,12 @@ func (h *hist) block() bool {
 			for _, o := range h.reps {
 				if o != prop && o.n.Chain.Head.Height() == prop.n.Chain.Head.Height() {
 					oo := o
-					h.inZone(oo, func() { _ = oo.n.Pool.AddExternalTxs(validation.InboundTx, r.tx) })
+					// every node decodes its own copy of a gossiped transaction (flags cached on the object stay node-local)
+					cp := new(types.Transaction)
+					if raw, err := r.tx.ToBytes(); err != nil || cp.FromBytes(raw) != nil {
+						panic("transaction does not survive its own encoding")
+					}
+					h.inZone(oo, func() { _ = oo.n.Pool.AddExternalTxs(validation.InboundTx, cp) })
 				}
 			}
 			m := tr.M{}
@@ -771,7 +819,7 @@ func (h *hist) block() bool {
 			switch {
 			case period == state.NonePeriod && h.cfg.graph != nil && !(h.graphBuilt() || h.blocksInEpoch > 60):
 				// keep building the delegation graph
-			case period == state.NonePeriod && (h.blocksInEpoch > 34 || h.cfg.heavy && h.blocksInEpoch > 26 || h.cfg.graph != nil) && head < nv-int64(5*60):
+			case period == state.NonePeriod && (h.blocksInEpoch > 24 || h.cfg.heavy && h.blocksInEpoch > 19 || h.cfg.graph != nil) && head < nv-int64(5*60):
 				delay = nv - int64(4*60) - head // flip lottery starts
 			case period == state.FlipLotteryPeriod:
 				delay = maxI(20, nv-head+1)
